@@ -2,3 +2,6 @@ import Props.C08
 import Props.C19
 import Props.C15
 import Props.C05
+import Props.C09
+import Props.C12S
+import Props.C18
